@@ -26,6 +26,9 @@ type scenario struct {
 	desc            string
 	seed            uint64
 	length, spacing int
+	// byHash: the reference's own view of "which blocks exist", keyed by the WHOLE hash (independent of gocoin's
+	// 8-byte BlockIndex key)
+	byHash map[[32]byte]*chain.BlockTreeNode
 }
 
 func bkey(h []byte) uint64 { return binary.LittleEndian.Uint64(h[:8]) } // BIdx as the model's number
@@ -33,7 +36,18 @@ func bkey(h []byte) uint64 { return binary.LittleEndian.Uint64(h[:8]) } // BIdx 
 // register: ch.BlockIndex[hash] = n, mirrored into the chain state the oracle holds for checkBlockM
 func (sc *scenario) register(n *chain.BlockTreeNode) {
 	sc.ch.BlockIndex[n.BlockHash.BIdx()] = n
-	o.MustAsk(fmt.Sprintf("idx %d %d", bkey(n.BlockHash.Hash[:]), sc.t.idx[n]))
+	o.MustAsk(fmt.Sprintf("idx %x %d", n.BlockHash.Hash[:], sc.t.idx[n]))
+	sc.byHash[n.BlockHash.Hash] = n
+}
+
+// refParentOf: the block the header's previous-block field names, by whole hash (nil = no such block)
+func (sc *scenario) refParentOf(raw []byte) *chain.BlockTreeNode {
+	if len(raw) < 80 {
+		return nil
+	}
+	var h [32]byte
+	copy(h[:], raw[4:36])
+	return sc.byHash[h]
 }
 
 // indexSnapshot: every entry of BlockIndex with the node fields CheckBlock could reach
@@ -47,7 +61,7 @@ func indexSnapshot(ch *chain.Chain) map[[btc.Uint256IdxLen]byte]string {
 
 func newScenario(seed uint64, net netKind, length, spacing int) *scenario {
 	g := vlib.NewRng(seed)
-	sc := &scenario{net: net, t: newTree(), ch: newChain(net, easyBits), seed: seed, length: length, spacing: spacing}
+	sc := &scenario{net: net, t: newTree(), ch: newChain(net, easyBits), seed: seed, length: length, spacing: spacing, byHash: map[[32]byte]*chain.BlockTreeNode{}}
 	sc.desc = fmt.Sprintf("%s len=%d spacing=%d", net.name, length, spacing)
 	ts := uint32(1700000000 - length*spacing - 100000)
 	tip := sc.t.add(nil, 0, ts, easyBits)
@@ -90,7 +104,8 @@ type blockSpec struct {
 	txCount   int    // -1 = len(txs)
 	trusted   bool
 	preParsed bool
-	dupIndex  string // "", "dup", "genesis": pre-register the block hash in BlockIndex
+	dupIndex  string // "", "dup", "genesis": pre-register the block hash in BlockIndex; "collide", "collide-genesis": pre-register
+	// a node under the block's 8-byte key whose whole hash differs (synthetic index state: from blocks it takes 2^64 work)
 	noRef     bool   // contextual refusal that the reference cannot judge (unknown parent, duplicate, too deep)
 	shortRaw  int    // >0: hand PreCheckBlock a Block whose Raw has this many bytes (<80)
 }
@@ -231,6 +246,7 @@ func pickH(g *vlib.Rng, h uint32, allowOff bool) uint32 {
 var blockMuts = []string{"none", "none", "none", "none", "none", "none",
 	"version", "version", "version", "time-mtp", "time-mtp+1", "time-mtp-1", "time-now+7200", "time-now+7201", "time-now+7500", "time-now+7501",
 	"bits-off", "bits-neg", "bits-zero", "bits-overflow", "bits-noncanon", "high-hash", "parent-unknown", "duplicate", "genesis-dup",
+	"parent-prefix-only", "parent-prefix-only", "parent-suffix-only", "hash-key-collision",
 	"fork-side", "cb-len-1", "cb-len-2", "cb-len-100", "cb-len-101", "bip34-wrong-height", "bip34-nonminimal", "bip34-missing",
 	"no-coinbase", "cb-second", "cb-not-first", "empty-block", "truncated", "trailing", "lock-height", "lock-height-1", "lock-time", "lock-time-1",
 	"lock-cb", "dup-tail", "dup-subtree", "merkle-wrong", "commit-wrong", "commit-missing", "commit-superfluous", "commit-two-last-right", "commit-two-first-right",
@@ -243,7 +259,7 @@ func genBlock(g *vlib.Rng, sc *scenario, now int64, cons *consH, force string) *
 		s.mut = force
 	}
 	s.parent = sc.tip
-	if s.mut == "fork-side" {
+	if s.mut == "fork-side" || (s.mut == "parent-prefix-only" && g.Chance(1, 3)) {
 		for i := 0; i < 1+g.Intn(3) && s.parent.Parent != nil; i++ {
 			s.parent = s.parent.Parent
 		}
@@ -474,6 +490,17 @@ func genBlock(g *vlib.Rng, sc *scenario, now int64, cons *consH, force string) *
 	case "parent-unknown":
 		s.parent = nil
 		s.prevHash = g.Bytes(32)
+	case "parent-prefix-only":
+		// the previous-block field keeps the first 8 bytes (the BlockIndex key) of the parent's hash; the block is valid
+		// in every other respect for that parent (fixed 533896f3: it was accepted)
+		s.prevHash = scrambleTail(g, s.parent.BlockHash.Hash[:], g.Intn(5))
+	case "parent-suffix-only":
+		// the other way round: bytes 8..31 of a known hash, another index key
+		ph := append([]byte{}, s.parent.BlockHash.Hash[:]...)
+		ph[g.Intn(8)] ^= byte(1 << uint(g.Intn(8)))
+		s.prevHash = ph
+	case "hash-key-collision":
+		s.dupIndex = []string{"collide", "collide", "collide-genesis"}[g.Intn(3)]
 		s.noRef = true
 	case "duplicate":
 		s.dupIndex = "dup"
@@ -486,6 +513,31 @@ func genBlock(g *vlib.Rng, sc *scenario, now int64, cons *consH, force string) *
 		s.noRef = true
 	}
 	return s
+}
+
+// scrambleTail keeps bytes 0..7 of a hash and changes bytes 8..31 (mode 0: xor 0x5a, 1: random, 2: one bit, 3: only
+// the last byte, 4: only byte 8)
+func scrambleTail(g *vlib.Rng, h []byte, mode int) []byte {
+	out := append([]byte{}, h...)
+	switch mode {
+	case 0:
+		for i := 8; i < 32; i++ {
+			out[i] ^= 0x5a
+		}
+	case 1:
+		copy(out[8:], g.Bytes(24))
+		out[8] ^= 1 // never the original by accident
+		if bytes.Equal(out, h) {
+			out[9] ^= 1
+		}
+	case 3:
+		out[31] ^= 0x80
+	case 4:
+		out[8] ^= 1
+	default:
+		out[8+g.Intn(24)] ^= byte(1 << uint(g.Intn(8)))
+	}
+	return out
 }
 
 func errCode(er error) string {
@@ -509,6 +561,11 @@ func errCode(er error) string {
 				return "too-deep"
 			}
 			return "bad-prevblk"
+		case "rejected":
+			if strings.Contains(m, "collides with") {
+				return "index-collision"
+			}
+			return "rejected"
 		case "bad-blk-length":
 			if strings.Contains(m, "txn_count") {
 				return "build-failed"
@@ -674,6 +731,10 @@ func runBlock(kind string, sc *scenario, s *blockSpec, cons consH, raw []byte, n
 		dupNode = &chain.BlockTreeNode{BlockHash: bl.Hash, Parent: sc.tip, Height: sc.tip.Height + 1}
 	case "genesis":
 		dupNode = &chain.BlockTreeNode{BlockHash: bl.Hash}
+	case "collide":
+		dupNode = &chain.BlockTreeNode{BlockHash: btc.NewUint256(scrambleTail(vlib.NewRng(uint64(len(raw))), bl.Hash.Hash[:], len(raw)%3)), Parent: sc.tip, Height: sc.tip.Height + 1}
+	case "collide-genesis":
+		dupNode = &chain.BlockTreeNode{BlockHash: btc.NewUint256(scrambleTail(vlib.NewRng(uint64(len(raw))), bl.Hash.Hash[:], len(raw)%3))}
 	}
 	if dupNode != nil {
 		ch.BlockIndex[bl.Hash.BIdx()] = dupNode
@@ -686,16 +747,19 @@ func runBlock(kind string, sc *scenario, s *blockSpec, cons consH, raw []byte, n
 		ni := o.MustAsk(fmt.Sprintf("node %d %d 0 0", pi, dupNode.Height))
 		sc.t.idx[dupNode] = len(sc.t.nodes)
 		sc.t.nodes = append(sc.t.nodes, dupNode)
-		o.MustAsk(fmt.Sprintf("idx %d %s", bkey(bl.Hash.Hash[:]), ni))
-		defer o.MustAsk(fmt.Sprintf("unidx %d", bkey(bl.Hash.Hash[:])))
+		o.MustAsk(fmt.Sprintf("idx %x %s", dupNode.BlockHash.Hash[:], ni))
+		defer o.MustAsk(fmt.Sprintf("unidx %x", dupNode.BlockHash.Hash[:]))
 	}
 	// model inputs from the same chain state
+	// (for the `pre` request the harness hands over the ENTRIES found under the 8-byte keys, each with its whole
+	// hash; the whole-hash comparisons are the model's. The `cb` request below lets the model do the look-ups too.)
 	known := "n"
 	if n, ok := ch.BlockIndex[bl.Hash.BIdx()]; ok {
 		known = "d"
 		if n.Parent == nil {
 			known = "g"
 		}
+		known += fmt.Sprintf("%x", n.BlockHash.Hash[:])
 	}
 	pidx := -1
 	var pnode *chain.BlockTreeNode
@@ -744,7 +808,11 @@ func runBlock(kind string, sc *scenario, s *blockSpec, cons consH, raw []byte, n
 	if len(raw) >= 80 {
 		ver, btime, bits = binary.LittleEndian.Uint32(raw[0:4]), binary.LittleEndian.Uint32(raw[68:72]), binary.LittleEndian.Uint32(raw[72:76])
 	}
-	pre := o.MustAsk(fmt.Sprintf("pre %d %d %s %d %d %d %s %d %s %d %s %s %d %s %d %d %d", len(raw), ver, hashHex, bits, btime, now, known, pidx,
+	prevHex := vlib.Hex(make([]byte, 32))
+	if len(raw) >= 80 {
+		prevHex = vlib.Hex(raw[4:36])
+	}
+	pre := o.MustAsk(fmt.Sprintf("pre %d %d %s %s %d %d %d %s %d %s %d %s %s %d %s %d %d %d", len(raw), ver, hashHex, prevHex, bits, btime, now, known, pidx,
 		b2s(pnode != nil && pnode == last), last.Height, b2s(sc.net.testnet), b2s(sc.net.testnet4), ch.Consensus.MaxPOWBits, ch.Consensus.MaxPOWValue.String(),
 		cons.bip34, cons.bip65, cons.bip66))
 	model := pre
@@ -802,7 +870,7 @@ func runBlock(kind string, sc *scenario, s *blockSpec, cons consH, raw []byte, n
 	if !(s.shortRaw > 0 || len(raw) < 80) {
 		buildOk, toks := modelTxTokens(raw)
 		assigned := buildAssigned(raw) // BuildTxList returns before bl.Txs = make(...) on a corrupt count
-		cb := o.MustAsk(fmt.Sprintf("cb %d %d %s %d %d %d %d %d %s %s %d %s %d %d %d %d %d %d %s %s %s %s %s %s", len(raw), ver, hashHex, bkey(bl.Hash.Hash[:]), bkey(raw[4:36]),
+		cb := o.MustAsk(fmt.Sprintf("cb %d %d %s %s %d %d %d %s %s %d %s %d %d %d %d %d %d %s %s %s %s %s %s", len(raw), ver, hashHex, prevHex,
 			bits, btime, now, b2s(sc.net.testnet), b2s(sc.net.testnet4), ch.Consensus.MaxPOWBits, ch.Consensus.MaxPOWValue.String(),
 			cons.bip34, cons.bip65, cons.bip66, cons.csv, cons.segwit, cons.taproot, b2s(preParsedIn), b2s(buildOk), b2s(assigned), b2s(s.trusted), vlib.Hex(raw[36:68]), strings.Join(toks, " ")))
 		cf := strings.Fields(cb)
@@ -834,7 +902,21 @@ func runBlock(kind string, sc *scenario, s *blockSpec, cons consH, raw []byte, n
 		}
 	}
 	accepted := er == nil
-	if !s.noRef && !s.trusted && pnode != nil && len(raw) >= 80 {
+	// the reference finds the parent by the WHOLE previous-block field in its own map — never through BlockIndex
+	refParent := sc.refParentOf(raw)
+	if pnode != nil && refParent == nil {
+		r.Hit("prev-hash-shares-only-the-index-key-with-a-known-block")
+	}
+	if !s.noRef && !s.trusted && refParent == nil && len(raw) >= 80 {
+		rep["reference_violations"] = []string{"prev-blk-not-found"}
+		if accepted {
+			r.PropFail("accepted-invalid:prev-blk-not-found", fmt.Sprintf("Chain.CheckBlock accepts a block (kind %s) whose previous-block field %x is the hash of no known block (it shares its first 8 bytes, the BlockIndex key, with %v)", s.mut, raw[4:36], pnode != nil), rep)
+			return
+		}
+		r.Hit("unknown-parent-refused/" + code)
+	}
+	if !s.noRef && !s.trusted && refParent != nil && len(raw) >= 80 {
+		pnode := refParent
 		rc := refChain(pnode)
 		req, _ := refNextWork(rc, btime, sc.net.params(ch.Consensus.MaxPOWValue))
 		h := int64(pnode.Height) + 1
@@ -954,6 +1036,38 @@ func corpusBlocks(g *vlib.Rng) {
 			runBlock("corpus", sc, s, gate, raw, now, rep)
 		}
 	}
+	// fixed 533896f3: a block that is valid on a known parent except that its previous-block field keeps only the first
+	// 8 bytes (the BlockIndex key) of that parent's hash — three ways of changing bytes 8..31, parent = tip / an ancestor;
+	// and the reverse (bytes 8..31 kept, key changed); and a synthetic index entry under the block's own key
+	for back := 0; back < 3; back++ {
+		for mode := 0; mode < 5; mode++ {
+			now := stableNow()
+			var cons consH
+			save := sc.tip
+			for i := 0; i < back; i++ {
+				sc.tip = sc.tip.Parent
+			}
+			s := genBlock(g.Fork(), sc, now, &cons, "none")
+			sc.tip = save
+			s.mut = fmt.Sprintf("parent-prefix-only-corpus-%d-back%d", mode, back)
+			s.prevHash = scrambleTail(g, s.parent.BlockHash.Hash[:], mode)
+			raw := s.raw()
+			rep := map[string]interface{}{"op": "block", "mutation": s.mut, "raw": fmt.Sprintf("%x", raw), "scenario": sc.desc, "now_at_run": now,
+				"cons": []uint32{cons.bip34, cons.bip65, cons.bip66, cons.csv, cons.segwit, cons.taproot}, "net": sc.net.name, "parent_back": back,
+				"real_parent": s.parent.BlockHash.String()}
+			runBlock("corpus", sc, s, cons, raw, now, rep)
+		}
+	}
+	for _, kind := range []string{"parent-suffix-only", "hash-key-collision", "hash-key-collision", "hash-key-collision", "parent-unknown"} {
+		now := stableNow()
+		var cons consH
+		s := genBlock(g.Fork(), sc, now, &cons, kind)
+		raw := s.raw()
+		rep := map[string]interface{}{"op": "block", "mutation": s.mut + "-corpus", "raw": fmt.Sprintf("%x", raw), "scenario": sc.desc, "now_at_run": now,
+			"cons": []uint32{cons.bip34, cons.bip65, cons.bip66, cons.csv, cons.segwit, cons.taproot}, "net": sc.net.name, "dup": s.dupIndex}
+		runBlock("corpus", sc, s, cons, raw, now, rep)
+	}
+	e2ePrefixOnlyParent(g.U64())
 }
 
 func streamBlocks(g *vlib.Rng) {
@@ -1104,6 +1218,12 @@ func addCommitmentDet(txs []*rtx) {
 func replayBlock(m map[string]interface{}) {
 	str := func(k string) string { s, _ := m[k].(string); return s }
 	num := func(k string) int { f, _ := m[k].(float64); return int(f) }
+	if str("e2e_seed") != "" {
+		var seed uint64
+		fmt.Sscan(str("e2e_seed"), &seed)
+		e2ePrefixOnlyParent(seed)
+		return
+	}
 	if str("sc_seed") == "" || str("case_seed") == "" {
 		fmt.Println("replay: this block case is re-generated by running the block stream with the recorded seed")
 		streamBlocks(rngFor(8))
